@@ -8,16 +8,20 @@ import (
 	"math/big"
 	"strings"
 	"testing"
+	"time"
 
 	"pgregory.net/rapid"
 
 	"github.com/formancehq/go-libs/v5/pkg/storage/bun/paginate"
+	libtime "github.com/formancehq/go-libs/v5/pkg/types/time"
 
 	ledger "github.com/formancehq/ledger/internal"
 	"github.com/formancehq/ledger/internal/api/bulking"
 	ledgercontroller "github.com/formancehq/ledger/internal/controller/ledger"
+	"github.com/formancehq/ledger/internal/storage/common"
 	"github.com/formancehq/ledger/pkg/features"
 	"github.com/formancehq/ledger/verifharness/env"
+	"github.com/formancehq/ledger/verifharness/known"
 	"github.com/formancehq/ledger/verifharness/stats"
 )
 
@@ -82,9 +86,63 @@ func createElement(ps ledger.Postings, ref string) bulking.BulkElement {
 
 const ruleC11 = "a generated source history (postings and Numscript creates on both runtimes, reverts, metadata save/delete with adversarial strings, failing writes leaving id gaps) is exported with the real Export, sent through JSON, and imported with the real Import (state tracker included) into a fresh ledger of another bucket with the same features; the copy must equal the source on every read (transactions, accounts, volumes, aggregated balances, logs and their hashes); then the first write goes through a drawn path (single request / non-atomic bulk / atomic bulk) and must succeed with ids that continue the imported ones, followed by more random writes and a full sweep; non-trivial = source with >= 1 revert and an id gap, and the post-import first write through a bulk; distinct = by source history + path"
 
+const FindingImportMetaDeleteDate = "C11-import-account-meta-delete-date"
+
+// reproduceImportMetaDeleteDate is the pinned reproducer of known finding
+// C11-import-account-meta-delete-date: the account's metadata at an instant
+// between the original deletion and the import differs between source and copy.
+func reproduceImportMetaDeleteDate() bool {
+	w := NewWorld(&quietT{}, nil, env.Options{})
+	defer w.Close()
+	src := w.AddLedger("src", "b1", features.DefaultFeatures)
+	if w.CreateTx(src, TxRequest{Postings: ledger.Postings{ledger.NewPosting("world", "u:1", "USD/2", big.NewInt(5))}}).Kind != ErrNone {
+		return false
+	}
+	if w.SaveAccountMeta(src, "u:1", map[string]string{"k": "v"}, false) != ErrNone {
+		return false
+	}
+	w.Env.Sim.AdvanceClock(time.Hour)
+	if w.DeleteAccountMeta(src, "u:1", "k", false) != ErrNone {
+		return false
+	}
+	w.Env.Sim.AdvanceClock(time.Hour)
+	between := libtime.New(w.Env.Sim.Clock())
+	w.Env.Sim.AdvanceClock(time.Hour)
+	logs := w.exportLogs(src)
+	cp := w.AddLedger("copy", "b2", features.DefaultFeatures)
+	if err := w.importLogs(cp, logs); err != nil {
+		return false
+	}
+	metaAt := func(l *LState) (map[string]string, bool) {
+		c, err := w.Env.Ledger(w.Ctx, l.Name)
+		if err != nil {
+			return nil, false
+		}
+		cur, err := c.ListAccounts(w.Ctx, common.InitialPaginatedQuery[any]{PageSize: 15, Options: common.ResourceQuery[any]{PIT: &between}})
+		if err != nil {
+			return nil, false
+		}
+		for _, a := range cur.Data {
+			if a.Address == "u:1" {
+				return a.Metadata, true
+			}
+		}
+		return nil, false
+	}
+	ms, ok1 := metaAt(src)
+	mc, ok2 := metaAt(cp)
+	_, inSrc := ms["k"]
+	_, inCopy := mc["k"]
+	return ok1 && ok2 && !inSrc && inCopy
+}
+
 func TestC11(t *testing.T) {
 	st := stats.New("C11", "exploration", ruleC11, assumePgsim)
 	defer st.Write(t)
+	if known.IsOpen(FindingImportMetaDeleteDate) && reproduceImportMetaDeleteDate() {
+		fmt.Println(known.Line(FindingImportMetaDeleteDate))
+		st.Known(known.Line(FindingImportMetaDeleteDate))
+	}
 	n := stats.N(200, 600)
 	st.Set("requested_checks", n)
 	stats.Check(t, n, 11, func(rt *rapid.T) {
